@@ -629,6 +629,51 @@ def model_terms_rule(chk, src):
                    line=fj.node.lineno, detail="nearest-neighbour coupling matrix: symmetric, J on the first off-diagonals, and for a periodic chain on the (0, n-1) / (n-1, 0) corners")
 
 
+def counter_balance_rule(chk, src):
+    """a method that raises an instance counter (`self.<c> += 1`) to mark 'inside a recursive evaluation' and lowers it again before it post-processes its result
+    must lower it on every way out: a `return` between the two leaves the counter raised for the lifetime of the object, and every later top-level call is then
+    treated as a nested one (no origin shift, no DVR rotation)."""
+    chk.rule("counter-balance", "recursion counters raised by a method are lowered again on every return path", 2)
+    n = 0
+    for fi in src.funcs_in(BASIS):
+        body = fi.node.body
+        incs = [(k, st) for k, st in enumerate(body) if isinstance(st, ast.AugAssign) and isinstance(st.op, ast.Add) and isinstance(st.target, ast.Attribute)
+                and isinstance(st.target.value, ast.Name) and st.target.value.id == "self" and isinstance(st.value, ast.Constant) and st.value.value == 1]
+        for k, inc in incs:
+            name = inc.target.attr
+            decs = [j for j, st in enumerate(body) if j > k and isinstance(st, ast.AugAssign) and isinstance(st.op, ast.Sub) and unparse(st.target) == unparse(inc.target)
+                    and isinstance(st.value, ast.Constant) and st.value.value == 1]
+            n += 1
+            if not decs:
+                chk.ob("counter-balance", f"{fi.qual}: self.{name}", False, fi.where, "raised, never lowered at the top level of the method", "lowered before the method returns", line=inc.lineno)
+                continue
+            early = []
+
+            def is_dec(st, inc=inc):
+                return isinstance(st, ast.AugAssign) and isinstance(st.op, ast.Sub) and unparse(st.target) == unparse(inc.target) and isinstance(st.value, ast.Constant) and st.value.value == 1
+
+            def scan(stmts, lowered):
+                for st in stmts:
+                    if is_dec(st):
+                        lowered = True
+                    elif isinstance(st, ast.Return):
+                        if not lowered:
+                            early.append(st)
+                    elif isinstance(st, (ast.FunctionDef, ast.AsyncFunctionDef, ast.ClassDef)):
+                        continue
+                    else:
+                        for fld in ("body", "orelse", "finalbody", "handlers"):
+                            sub = getattr(st, fld, None)
+                            if isinstance(sub, list):
+                                scan([h for x in sub for h in (x.body if isinstance(x, ast.ExceptHandler) else [x])], lowered)
+            scan(body[k + 1:decs[0]], False)
+            chk.ob("counter-balance", f"{fi.qual}: self.{name}", not early, fi.where, [f"line {r.lineno}: {norm_stmt(r, 60)}" for r in early] or "no return while raised", "no return while raised",
+                   line=inc.lineno, detail=f"{fi.qual} returns at line {early[0].lineno if early else '?'} while self.{name} is still raised: after one such call the object treats every "
+                                           "request as a nested one and returns matrices without the origin shift / in the unrotated basis")
+    if n == 0:
+        raise AnalysisError("no recursion counter found in model/basis.py (anchor of the counter-balance rule)")
+
+
 def run(chk):
     src = chk.src
     chk.explanation = (
@@ -656,6 +701,7 @@ def run(chk):
     model_terms_rule(chk, src)
     chk.rule("unit-table", "unit conversion table of Quantity and the reciprocal constants it is built from", 14)
     unit_table_rule(chk, src)
+    counter_balance_rule(chk, src)
     chk.rule("copy-forward", "copy(new_dof) passes every stored __init__ parameter from self.<same attribute> in the matching slot", 9)
 
     # ------------------------------------------------------------ SHO
